@@ -110,3 +110,44 @@ def initial_lines(rnd, dom=False, mem=True, maxp=3, maxg=2):
     for r in rnd.sample(gr, rnd.randint(0, maxg)):
         ls.append((["g", "g"] if mem else ["g"]) + r)
     return ls
+
+
+# ---- a model with two policy types per section whose rules share names across the sibling types ----
+def multi_spec():
+    m = And(Call("g", V("r", "sub"), V("p", "sub")), Call("g2", V("r", "obj"), V("p", "obj")), Eq(V("r", "act"), V("p", "act")))
+    return "r=sub,obj,act;p=sub,obj,act;p2=sub,obj,act;g=2;g2=2;e=AO;m={%s}" % m
+
+
+MP = [["alice", "data1", "read"], ["ops", "data1", "read"], ["bob", "data2", "read"]]
+MG = [["alice", "ops"], ["bob", "ops"], ["ops", "admin"]]
+MG2 = [["data1", "ops"], ["data2", "ops"], ["ops", "res"]]
+
+
+def multi_alphabet():
+    al = []
+    for pt in ("p", "p2"):
+        for r in MP:
+            al += [A("p", pt, r), R("p", pt, r)]
+        al += [AM("p", pt, MP[:2]), RM("p", pt, MP[:2]), RM("p", pt, MP[1:]), RF("p", pt, 0, ["ops"]), RF("p", pt, 1, ["data1"]),
+               RF("p", pt, 0, ["", "data1"])]
+    for gk, rules in (("g", MG), ("g2", MG2)):
+        for r in rules:
+            al += [A("g", gk, r), R("g", gk, r)]
+        al += [AM("g", gk, rules[:2]), RM("g", gk, rules[:2]), RF("g", gk, 1, ["ops"]), RF("g", gk, 0, ["ops"])]
+    al += ["dra:ops", "du:ops", "du:alice", "dp:%s" % enc_rule(["data1", "read"]), "dpsf:ops", "CL"]
+    return al
+
+
+def multi_lines(mem=True):
+    ls = []
+    for pt, rules in (("p", MP[:2]), ("p2", MP[1:])):
+        for r in rules:
+            ls.append((["p", pt] if mem else [pt]) + r)
+    for gk, rules in (("g", MG[:2]), ("g2", MG2[:2])):
+        for r in rules:
+            ls.append((["g", gk] if mem else [gk]) + r)
+    return ls
+
+
+def multi_observe():
+    return ["?ga:p", "?ga:g", Q_e(["alice", "data1", "read"]), Q_e(["bob", "data1", "read"]), Q_e(["alice", "data2", "read"])]
